@@ -20,7 +20,9 @@ use lightning::routing::router::{Path, Route, RouteHop};
 use lightning::types::features::{ChannelFeatures, NodeFeatures};
 use lightning::types::payment::{PaymentHash, PaymentPreimage, PaymentSecret};
 use lightning::util::persist::MonitorName;
-use lightning::util::ser::Writeable;
+use lightning::chain::BlockLocator;
+use lightning::util::ser::{ReadableArgs, Readable, Writeable};
+use lightning::util::test_utils::{TestBroadcaster, TestChainMonitor, TestFeeEstimator, TestKeysInterface, TestLogger};
 use lightning::util::test_channel_signer::TestChannelSigner;
 use lightning::verif::monitor::{steps as update_steps, CommitmentInfo, HtlcInfo, StepView};
 use rand::rngs::StdRng;
@@ -50,6 +52,10 @@ struct RecPersister {
 	/// last counterparty-commitment / holder-commitment info seen per channel
 	last_cp: Mutex<HashMap<usize, Value>>,
 	pending: Mutex<Vec<(usize, u64)>>,
+	keys: &'static TestKeysInterface,
+	fee_est: &'static TestFeeEstimator,
+	logger: &'static TestLogger,
+	txids: Arc<Mutex<HashMap<[u8; 32], (usize, usize, u64, bool)>>>,
 }
 
 fn intern_hash(hashes: &Arc<Mutex<Vec<[u8; 32]>>>, h: &[u8; 32]) -> usize {
@@ -72,6 +78,53 @@ fn chan_index(chans: &Arc<Mutex<Vec<ChannelId>>>, c: &ChannelId) -> usize {
 
 fn htlc_json(hashes: &Arc<Mutex<Vec<[u8; 32]>>>, h: &HtlcInfo) -> Value {
 	json!({"hash": intern_hash(hashes, &h.payment_hash), "amt": h.amount_msat, "offered": h.offered, "cltv": h.cltv_expiry})
+}
+
+/// C12: write / read-back checks performed on every persisted monitor and update.
+fn round_trips(p: &RecPersister, prev: Option<&Vec<u8>>, update: Option<&ChannelMonitorUpdate>, mon: &ChannelMonitor<TestChannelSigner>) -> Value {
+	let bytes = mon.encode();
+	let mut rd = &bytes[..];
+	let mon_rt = match <(BlockLocator, ChannelMonitor<TestChannelSigner>)>::read(&mut rd, (p.keys, p.keys)) {
+		Ok((_, m2)) => rd.is_empty() && m2 == *mon,
+		Err(_) => false,
+	};
+	let mut upd_rt = true;
+	let mut commute = json!(true);
+	let mut commute_checked = false;
+	if let Some(u) = update {
+		let ub = u.encode();
+		let mut r = &ub[..];
+		upd_rt = match <ChannelMonitorUpdate as Readable>::read(&mut r) {
+			Ok(u2) => u2 == *u,
+			Err(_) => false,
+		};
+		// C12: applying the update before or after a serialization round trip gives equal monitors.
+		// (The previously persisted copy may be at an older chain tip than the live monitor -- the
+		// ChainMonitor does not persist on every block -- so it is compared with itself, not with `mon`.)
+		if let Some(pb) = prev {
+			let rd = |b: &[u8]| { let mut r = b; <(BlockLocator, ChannelMonitor<TestChannelSigner>)>::read(&mut r, (p.keys, p.keys)).map(|x| x.1) };
+			if let (Ok(m1), Ok(m2)) = (rd(&pb[..]), rd(&pb[..])) {
+				if m1.get_latest_update_id() + 1 == u.update_id {
+					let bc = TestBroadcaster::new(bitcoin::Network::Testnet);
+					let ok1 = m1.update_monitor(u, &bc, p.fee_est, p.logger).is_ok();
+					let m1b = rd(&m1.encode()[..]);
+					let m2b = rd(&m2.encode()[..]);
+					commute_checked = true;
+					commute = match (m1b, m2b) {
+						(Ok(a), Ok(b)) => { let ok2 = b.update_monitor(u, &bc, p.fee_est, p.logger).is_ok(); json!(ok1 && ok2 && a == b && a == m1) },
+						_ => json!(false),
+					};
+				}
+			}
+		}
+	}
+	// truncations of a valid encoding are refused, never a panic
+	let mut trunc_ok = true;
+	for cut in [bytes.len() / 3, bytes.len() / 2, bytes.len() - 1] {
+		let mut r = &bytes[..cut];
+		if <(BlockLocator, ChannelMonitor<TestChannelSigner>)>::read(&mut r, (p.keys, p.keys)).is_ok() { trunc_ok = false; }
+	}
+	json!({"monitor": mon_rt, "update": upd_rt, "commute": commute, "commute_checked": commute_checked, "truncated_refused": trunc_ok})
 }
 
 fn commitment_json(hashes: &Arc<Mutex<Vec<[u8; 32]>>>, c: &CommitmentInfo, dust: &[HtlcInfo]) -> Value {
@@ -99,9 +152,11 @@ impl RecPersister {
 			for s in update_steps(u) {
 				steps.push(match s {
 					StepView::HolderCommitment { commitments, dust_htlcs, claimed } => {
+						for cm in commitments.iter() { self.txids.lock().unwrap().insert(cm.txid, (self.node, c, 0xffff_ffff_ffffu64 - cm.commitment_number, true)); }
 						json!({"k":"holder_commitment","c": commitment_json(&self.hashes, &commitments[0], &dust_htlcs), "n": commitments.len(), "claimed": claimed})
 					},
 					StepView::CounterpartyCommitment { commitments, dust_htlcs } => {
+						for cm in commitments.iter() { self.txids.lock().unwrap().insert(cm.txid, (self.node, c, 0xffff_ffff_ffffu64 - cm.commitment_number, false)); }
 						let cj = commitment_json(&self.hashes, &commitments[0], &dust_htlcs);
 						self.last_cp.lock().unwrap().insert(c, cj.clone());
 						json!({"k":"counterparty_commitment","c": cj, "n": commitments.len(), "claimed": 0})
@@ -124,6 +179,8 @@ impl RecPersister {
 		}
 		let status = if inprog { "inprogress" } else { "completed" };
 		let has_update = update.is_some();
+		let prev: Option<Vec<u8>> = self.snapshots.lock().unwrap().iter().rev().find(|s| s.0 == c).map(|s| s.2.clone());
+		let rt = round_trips(self, prev.as_ref(), update, mon);
 		self.snapshots.lock().unwrap().push((c, id, mon.encode()));
 		if inprog {
 			self.pending.lock().unwrap().push((c, id));
@@ -131,7 +188,7 @@ impl RecPersister {
 		self.log.lock().unwrap().push(json!({
 			"ev":"persist","node":self.node,"chan":c,"kind":kind,"id":id,
 			"uid": update.map(|u| u.update_id as i64).unwrap_or(-1),
-			"has_update":has_update,"steps":steps,"status":status}));
+			"has_update":has_update,"steps":steps,"status":status,"rt":rt}));
 		if inprog {
 			ChannelMonitorUpdateStatus::InProgress
 		} else {
@@ -204,6 +261,11 @@ struct Net {
 	feerate: Vec<u32>,
 	executed: usize,
 	skipped: usize,
+	mgr_snaps: Vec<Vec<Vec<u8>>>,
+	/// snapshot taken while no monitor update of that node was in flight (nothing was being held)
+	mgr_clean: Vec<Vec<bool>>,
+	node_cfgs: &'static Vec<NodeCfg<'static>>,
+	txids: Arc<Mutex<HashMap<[u8; 32], (usize, usize, u64, bool)>>>,
 }
 
 fn leak<T>(t: T) -> &'static T {
@@ -286,7 +348,7 @@ impl Net {
 						if let Some(m) = updates.update_fee { self.enqueue(i, &node_id, Wire::Fee(m)); }
 						if !updates.commitment_signed.is_empty() {
 							let c = self.chan(&channel_id);
-							let info = self.persisters[i].last_cp.lock().unwrap().get(&c).cloned().unwrap_or(json!(null));
+							let info = self.persisters[i].last_cp.lock().unwrap().get(&c).cloned().unwrap_or(json!({"num":0,"feerate":0,"to_b":0,"to_c":0,"nondust":[],"dust":[]}));
 							self.enqueue(i, &node_id, Wire::CS(updates.commitment_signed, info));
 						}
 					},
@@ -331,8 +393,21 @@ impl Net {
 			for (k, tx) in txs.iter().enumerate() {
 				let ty = types.get(k).map(|t| format!("{:?}", t)).unwrap_or_default();
 				let ty: String = ty.chars().take_while(|c| c.is_alphanumeric()).collect();
+				use bitcoin::hashes::Hash as _;
+				let known = self.txids.lock().unwrap().get(&tx.compute_txid().to_byte_array()).cloned();
+				let (cn, cc, cnum, cholder) = match known { Some((n, c, num, h)) => (n as i64, c as i64, num as i64, h), None => (-1, 0, -1, false) };
 				self.ev(json!({"ev":"broadcast","node":i,"type":ty,"inputs":tx.input.len(),"outputs":tx.output.len(),
-					"locktime": tx.lock_time.to_consensus_u32()}));
+					"locktime": tx.lock_time.to_consensus_u32(),"c_node":cn,"chan":cc,"c_num":cnum,"c_holder":cholder}));
+			}
+		}
+		// the application persists the manager whenever the library asks for it
+		for i in 0..self.nodes.len() {
+			if self.nodes[i].node.get_and_clear_needs_persistence() {
+				self.mgr_snaps[i].push(self.nodes[i].node.encode());
+				let clean = self.persisters[i].pending.lock().unwrap().is_empty();
+				self.mgr_clean[i].push(clean);
+				let k = self.mgr_snaps[i].len() - 1;
+				self.ev(json!({"ev":"mgr_snap","node":i,"k":k}));
 			}
 		}
 		want_disc.sort();
@@ -457,7 +532,8 @@ impl Net {
 		true
 	}
 
-	fn proj(&mut self, i: usize) {
+	fn proj(&mut self, i: usize) { self.proj_ext(i, false, false) }
+	fn proj_ext(&mut self, i: usize, fin: bool, after_reload: bool) {
 		let chans = self.nodes[i].node.list_channels();
 		for cd in chans {
 			let c = self.chan(&cd.channel_id);
@@ -466,7 +542,7 @@ impl Net {
 				"out_cap":cd.outbound_capacity_msat,"in_cap":cd.inbound_capacity_msat,
 				"limit":cd.next_outbound_htlc_limit_msat,"min":cd.next_outbound_htlc_minimum_msat,
 				"usable":cd.is_usable,"ready":cd.is_channel_ready,
-				"n_in":cd.pending_inbound_htlcs.len(),"n_out":cd.pending_outbound_htlcs.len()}));
+				"n_in":cd.pending_inbound_htlcs.len(),"n_out":cd.pending_outbound_htlcs.len(),"final":fin,"after_reload":after_reload}));
 		}
 	}
 
@@ -672,10 +748,91 @@ impl Net {
 				for i in 0..n { connect_blocks(&self.nodes[i], k); }
 				self.drain();
 			},
-			"proj" => { self.all_proj(); },
+			"crash" | "reload" => {
+				let i = op["node"].as_u64().unwrap() as usize;
+				if i < n { self.crash(i, name == "reload", op["mgr"].as_u64().unwrap_or(0) as usize, op["mon"].as_str().unwrap_or("durable"), rng); } else { did = false; }
+			},
+			"proj" => { let fin = op["final"].as_bool().unwrap_or(false); for i in 0..n { self.proj_ext(i, fin, false); } },
 			_ => { did = false; },
 		}
 		if did { self.executed += 1; } else { self.skipped += 1; let _ = before; }
+	}
+
+	/// Stop node `i` and restart it from persisted state. `reload`: latest manager, every monitor
+	/// write landed (C12). `crash`: the manager written `back` snapshots ago and, per channel, the
+	/// durable monitor (every completed write) or a later in-flight write that happened to land.
+	fn crash(&mut self, i: usize, reload: bool, back: usize, mon_choice: &str, rng: &mut StdRng) {
+		let n = self.nodes.len();
+		// the node's peers lose the connection
+		for j in 0..n {
+			if j == i { continue; }
+			let key = (i.min(j), i.max(j));
+			if *self.connected.get(&key).unwrap_or(&false) {
+				self.connected.insert(key, false);
+				self.queues.remove(&(i, j));
+				self.queues.remove(&(j, i));
+				let pi = self.nodes[i].node.get_our_node_id();
+				self.nodes[j].node.peer_disconnected(pi);
+				if reload { let pj = self.nodes[j].node.get_our_node_id(); self.nodes[i].node.peer_disconnected(pj); }
+			}
+		}
+		if reload {
+			// what a clean shutdown writes: disconnect, then persist everything
+			self.drain();
+			self.proj(i);
+			self.mgr_snaps[i].push(self.nodes[i].node.encode());
+			self.mgr_clean[i].push(true);
+			let k = self.mgr_snaps[i].len() - 1;
+			self.ev(json!({"ev":"mgr_snap","node":i,"k":k}));
+		}
+		let nsn = self.mgr_snaps[i].len();
+		let mut k = if reload { nsn - 1 } else { nsn - 1 - back.min(nsn - 1) };
+		// use a snapshot taken while nothing was held back by an in-flight monitor update
+		while k > 0 && !self.mgr_clean[i][k] { k -= 1; }
+		let mgr_bytes = self.mgr_snaps[i][k].clone();
+		// monitors
+		let snaps = self.persisters[i].snapshots.lock().unwrap().clone();
+		let pend = self.persisters[i].pending.lock().unwrap().clone();
+		let mut chans: Vec<usize> = snaps.iter().map(|s| s.0).collect();
+		chans.sort(); chans.dedup();
+		let mut mons: Vec<Vec<u8>> = Vec::new();
+		let mut mon_desc = Vec::new();
+		for c in chans {
+			let idxs: Vec<usize> = (0..snaps.len()).filter(|x| snaps[*x].0 == c).collect();
+			let first_pending = pend.iter().filter(|p| p.0 == c).map(|p| p.1).min();
+			let durable = match first_pending {
+				Some(pid) => idxs.iter().rev().find(|x| snaps[**x].1 < pid).cloned().unwrap_or(idxs[0]),
+				None => *idxs.last().unwrap(),
+			};
+			let latest = *idxs.last().unwrap();
+			let pick = if reload { latest } else { match mon_choice {
+				"latest" => latest,
+				"random" => { let cands: Vec<usize> = idxs.iter().filter(|x| **x >= durable).cloned().collect(); cands[rng.gen_range(0..cands.len())] },
+				_ => durable,
+			} };
+			mon_desc.push(json!({"chan": c, "id": snaps[pick].1}));
+			mons.push(snaps[pick].2.clone());
+		}
+		self.persisters[i].pending.lock().unwrap().clear();
+		*self.persisters[i].in_progress.lock().unwrap() = false;
+		self.ev(json!({"ev":"crash","node":i,"reload":reload,"mgr":k,"mons":mon_desc}));
+		let cfg = self.nodes[i].node.get_current_config();
+		let ncm: &'static TestChainMonitor<'static> = leak(TestChainMonitor::new(
+			Some(self.nodes[i].chain_source), self.nodes[i].tx_broadcaster, self.nodes[i].logger, self.nodes[i].fee_estimator,
+			&self.persisters[i], self.nodes[i].keys_manager));
+		self.nodes[i].chain_monitor = ncm;
+		let mon_refs: Vec<&[u8]> = mons.iter().map(|m| &m[..]).collect();
+		let before = self.log.lock().unwrap().len();
+		let new_mgr = leak(_reload_node(&self.nodes[i], cfg, &mgr_bytes, &mon_refs, None));
+		self.nodes[i].node = new_mgr;
+		self.nodes[i].onion_messenger.set_offers_handler(new_mgr);
+		self.nodes[i].onion_messenger.set_async_payments_handler(new_mgr);
+		self.nodes[i].chain_monitor.added_monitors.lock().unwrap().clear();
+		// persist calls made while loading the monitors are re-persists of known state
+		{ let mut lg = self.log.lock().unwrap(); for e in lg.iter_mut().skip(before) { if e["ev"] == "persist" { e["kind"] = json!("load"); } } }
+		self.ev(json!({"ev":"restarted","node":i}));
+		self.drain();
+		if reload { self.proj_ext(i, false, true); }
 	}
 
 	fn resolve_amount(&mut self, src: usize, dst: usize, a: &Value, rng: &mut StdRng) -> u64 {
@@ -715,9 +872,11 @@ fn build_net(run: u64, cfg: &Value, log: &Log) -> Net {
 	for c in cfgs.iter() {
 		*c.fee_estimator.sat_per_kw.lock().unwrap() = feerate0;
 	}
+	let txids = Arc::new(Mutex::new(HashMap::new()));
 	let persisters: &'static Vec<RecPersister> = leak((0..n).map(|i| RecPersister {
 		node: i, log: log.clone(), in_progress: Mutex::new(false), chans: chans.clone(), hashes: hashes.clone(),
 		snapshots: Mutex::new(Vec::new()), last_cp: Mutex::new(HashMap::new()), pending: Mutex::new(Vec::new()),
+		keys: &cfgs[i].keys_manager, fee_est: &cfgs[i].fee_estimator, logger: &cfgs[i].logger, txids: txids.clone(),
 	}).collect());
 	let node_cfgs = leak(create_node_cfgs_with_persisters(n, cfgs, persisters.iter().collect()));
 	let mut uc = test_default_channel_config();
@@ -759,7 +918,13 @@ fn build_net(run: u64, cfg: &Value, log: &Log) -> Net {
 	let mut net = Net {
 		nodes, cfgs, persisters, queues: HashMap::new(), connected, log: log.clone(), chans, hashes, points: Vec::new(),
 		pays: Vec::new(), scids, chan_ids, run, feerate: vec![feerate0; n], executed: 0, skipped: 0,
+		mgr_snaps: vec![Vec::new(); n], mgr_clean: vec![Vec::new(); n], node_cfgs, txids,
 	};
+	for i in 0..n {
+		let _ = net.nodes[i].node.get_and_clear_needs_persistence();
+		net.mgr_snaps[i].push(net.nodes[i].node.encode());
+		net.mgr_clean[i].push(true);
+	}
 	// describe every channel from both ends
 	let mut chans_desc = Vec::new();
 	for i in 0..n - 1 {
@@ -822,9 +987,19 @@ fn random_script(rng: &mut StdRng, n: usize, profile: &str) -> Value {
 		} else if r < 94 && profile != "nodisc" {
 			let a = rng.gen_range(0..n - 1);
 			ops.push(json!({"op":"reconnect","a":a,"b":a+1}));
+		} else if r < 97 && (profile == "crash" || profile == "reload") {
+			let node = rng.gen_range(0..n);
+			if profile == "reload" || rng.gen_bool(0.3) { ops.push(json!({"op":"reload","node":node})); }
+			else {
+				let mc = ["durable","latest","random"][rng.gen_range(0..3)];
+				ops.push(json!({"op":"crash","node":node,"mgr":rng.gen_range(0..4),"mon":mc}));
+			}
+			for a in 0..n - 1 { if rng.gen_bool(0.8) { ops.push(json!({"op":"reconnect","a":a,"b":a+1})); } }
 		} else if r < 97 && profile == "async" {
 			ops.push(json!({"op":"persist_mode","node":rng.gen_range(0..n),"mode": if rng.gen_bool(0.6) {"inprogress"} else {"completed"}}));
-		} else if profile == "async" {
+		} else if profile == "crash" && rng.gen_bool(0.5) {
+			ops.push(json!({"op":"persist_mode","node":rng.gen_range(0..n),"mode": if rng.gen_bool(0.6) {"inprogress"} else {"completed"}}));
+		} else if profile == "async" || profile == "crash" {
 			let wh = ["oldest","newest","all","random"][rng.gen_range(0..4)];
 			ops.push(json!({"op":"complete","node":rng.gen_range(0..n),"which":wh}));
 		} else {
@@ -838,7 +1013,7 @@ fn random_script(rng: &mut StdRng, n: usize, profile: &str) -> Value {
 	for k in 0..npay { ops.push(json!({"op": if rng.gen_bool(0.6) {"claim"} else {"fail"}, "pay":k})); }
 	for i in 0..n { ops.push(json!({"op":"complete","node":i,"which":"all"})); }
 	ops.push(json!({"op":"deliver_all"}));
-	ops.push(json!({"op":"proj"}));
+	ops.push(json!({"op":"proj","final":true}));
 	json!({"cfg":{"nodes":n,"chan_type":chan_type,"value":value,"push":push,"feerate":feerate}, "ops":ops})
 }
 
